@@ -26,6 +26,7 @@ import (
 	"github.com/cloudflare/circl/group"
 	"github.com/cloudflare/circl/kem/kyber/kyber768"
 	"github.com/cloudflare/circl/kem/mlkem/mlkem768"
+	"github.com/cloudflare/circl/math/mlsbset"
 	"github.com/cloudflare/circl/math/polynomial"
 	"github.com/cloudflare/circl/secretsharing"
 	tssrsa "github.com/cloudflare/circl/tss/rsa"
@@ -728,6 +729,26 @@ func scenarioFamily() *family {
 		}
 		if _, err := tssrsa.CombineSignShares(&key.PublicKey, second, digest); err != nil {
 			run.Violate("hist[scenarios].tss/rsa.KeyShare.Sign", "stale-or-aliased-state", "cache=%v blind=%v: partial signatures from the second use of each share do not combine: %v", cache, blind, err)
+		}
+	})
+	sc("mlsbset.Encode(short-k-with-spare-capacity)", func(run *core.Run, imm uint64) {
+		enc, err := mlsbset.New(64+uint(imm%128), 2, 3)
+		if err != nil {
+			return
+		}
+		full := int(enc.GetParams().L+7) / 8
+		n := 1 + int(imm>>8)%full // the exponent is given in n <= full bytes inside a larger buffer
+		buf := core.NewPRNG(imm).Bytes(full + 8)
+		buf[0] |= 1
+		keep := append([]byte{}, buf...)
+		p1, err1 := enc.Encode(buf[:n])
+		p2, err2 := enc.Encode(append([]byte{}, keep[:n]...))
+		if (err1 == nil) != (err2 == nil) || (err1 == nil && p1.String() != p2.String()) {
+			run.Violate("hist[scenarios].mlsbset.Encode", "result-depends-on-buffer-capacity", "k with spare capacity encodes differently")
+			return
+		}
+		if !bytes.Equal(buf, keep) {
+			run.Violate("hist[scenarios].mlsbset.Encode", "modifies-caller-buffer-beyond-k", "the bytes after k[:%d] in the caller's backing array changed: %x -> %x", n, keep[n:], buf[n:])
 		}
 	})
 	sc("expander/HashToElement(dst-with-spare-capacity)", func(run *core.Run, imm uint64) {
